@@ -88,6 +88,22 @@ def fixtures():
     out.append(("weighted uncrossed", {"factors": [F("a", ["x", "y"]), cw], "derived": [], "block": cross(["a", "color"], ["a"])}, 2 * 9))
     # MinimumTrials on a CrossBlock scales the crossing (guide): 2 levels, 4 trials -> each level twice
     out.append(("minimum trials", {"factors": [F("a", ["x", "y"])], "derived": [], "block": cross(["a"], ["a"], [{"kind": "min", "k": 4}])}, 6))
+    # combinators: acceptance/test_minimum_trials.py (Repeat with leftover) and acceptance/test_nest_block.py
+    import math
+    resp, cong = F("resp", ["H", "S"]), F("cong", ["con", "inc"])
+    for tc in (4, 5, 6):
+        left = tc % 4
+        out.append(("repeat min %d" % tc, {"factors": [resp, cong], "derived": [],
+                    "block": {"type": "repeat", "block": cross(["resp", "cong"], ["resp", "cong"]), "constraints": [{"kind": "min", "k": tc}]}},
+                    24 * (24 // math.factorial(4 - left)) if tc > 4 else 24))
+    A2, B2, ses = F("A", ["a1", "a2"]), F("B", ["b1", "b2"]), F("session", ["s1", "s2"])
+    out.append(("nest session x AB", {"factors": [A2, B2, ses], "derived": [],
+                "block": {"type": "nest", "outer": cross(["session"], ["session"]), "inner": cross(["A", "B"], ["A", "B"]), "constraints": [], "alignment": None}},
+                24 * 24 * 2))
+    E = Dv("E", ["A", "B"], "within", ["consi", "incons"], table([["a1", "a2"], ["b1", "b2"]], 1, lambda a, b: 0 if a[1] == b[1] else 1))
+    out.append(("nest dependent", {"factors": [A2, B2, ses], "derived": [E],
+                "block": {"type": "nest", "outer": cross(["A", "B", "E"], ["A", "E"]), "inner": cross(["session"], ["session"]), "constraints": [], "alignment": None}},
+                384))
     return out
 
 
